@@ -3,6 +3,7 @@ import props_lalr
 import props_lexer
 import props_tables
 import props_classes
+import props_gendir
 CHECKS = {
     "C01": props_parser.c01,
     "C03": props_parser.c03,
@@ -16,4 +17,6 @@ CHECKS = {
     "C11": props_lexer.c11,
     "C10": props_tables.c10,
     "C15": props_classes.c15,
+    "C13": props_gendir.c13,
+    "C14": props_gendir.c14,
 }
